@@ -72,6 +72,15 @@ PROPS = {
             "in unit cmd the contracts of frame.rs and connection.rs are assumed (R-stub-body) because they are verified in units resp and net, which this check also runs",
         ],
     },
+    "C10": {
+        "units": ["resp", "net", "cmd", "cmd10"], "label_prefixes": ["C10.", "C07.", "C06.decode.", "C06.key."], "level": "proof",
+        "trusted": ["T1", "T2", "T3", "T4", "T4b", "T5", "T5b", "T6", "T7", "T13", "T13b", "T14", "TKV", "TSPAWN", "TSELECT", "TITER", "RW", "DERIVE"],
+        "assumptions": [
+            "SCOPE-LIMITED to ONE connection: (1) for EVERY byte stream -- garbage, unknown commands, wrong arity, non-UTF-8 keys, truncated frames, nesting beyond the limit, absurd lengths -- the code that handles it (all of frame.rs, connection.rs except write_decimal, command.rs, command/*.rs, Handler::run) is verified to be free of panics, out-of-bounds accesses, arithmetic overflow, unbounded recursion and attacker-sized allocations (the body obligations and the C07.* obligations of every function tagged C10; Handler::run is verified a second time, in unit cmd10, under a contract WITHOUT any assumption on the input); (2) C10.run.store_changes_only_by_decoded_commands: whenever run returns Ok or a protocol error (Error::Frame / Error::Command) the engine's map is exactly the fold of the effects of the commands that were decoded (each one a well-formed SET / GET / DEL by C06.decode.*) and the bytes written are exactly the replies to them -- nothing a client sends changes the store in any other way; (3) on malformed input run returns, which drops the connection. Environmental errors of apply (Io / Storage / AsyncTask: C10.apply.errors_are_environmental, C10.write_frame.errors_are_io) are outside clause (2): the command in flight may or may not have taken effect",
+            "NOT covered (no function-level contract expresses it): that the PROCESS keeps running and OTHER connections keep being served (task isolation by tokio, panic containment, the accept loop, the connection limit), concurrency with other connections, memory exhaustion by many connections, and the stack depth actually available for MAX_DEPTH nested arrays",
+            "termination of Handler::run on arbitrary input is not proved (a connection may stay open); the loop is verified with exec_allows_no_decreases_clause in unit cmd10 (unit cmd proves termination for well-formed input)",
+        ],
+    },
     "C01": {
         "units": ["store", "log"], "label_prefixes": ["C01.", "C04.read.valid_location", "C04.copy.valid_location"], "level": "proof",
         "trusted": ["T1", "T4", "T8", "T11", "T12", "T13", "T13s", "TLOG", "TARC", "RW", "DERIVE"] + ["T9", "T10"],
